@@ -10,13 +10,21 @@ import (
 
 // jline is one line of justify.txt:
 //
-//	Struct.field  FunctionName|*  init|confined:<owner>|immutable  # reason
+//	Struct.field  FunctionName|*  init|confined:<owner>|immutable|pub:<tag>|after:<tag>  # reason
+//
+// init is OBJECT-level: the function writes the field while the object is
+// still private to its creator; such a row is safe against every other row.
+// pub:<tag> / after:<tag> are FIELD-level: the object is already shared when
+// the pub function writes the field; only the functions listed as after:<tag>
+// (each line carries its own happens-after argument) are ordered after that
+// write. Neither may name the function "*": a site that no line lists stays
+// plain and is unsafe against the pub write.
 type jline struct {
 	n      int // 1-based line number
 	field  string
 	fn     string
-	class  string // init | confined | immutable
-	owner  string
+	class  string // init | confined | immutable | pub | after
+	owner  string // confined: the owner; pub / after: the tag
 	reason string
 	bad    string // syntax problem, if any
 }
@@ -60,6 +68,18 @@ func parseJustify(file string) ([]*jline, error) {
 		case strings.HasPrefix(parts[2], "confined:") && len(parts[2]) > len("confined:"):
 			jl.class = "confined"
 			jl.owner = strings.TrimPrefix(parts[2], "confined:")
+		case strings.HasPrefix(parts[2], "pub:") && len(parts[2]) > len("pub:"):
+			jl.class = "pub"
+			jl.owner = strings.TrimPrefix(parts[2], "pub:")
+			if jl.fn == "*" {
+				jl.bad = "pub needs the one function that publishes the field, not *"
+			}
+		case strings.HasPrefix(parts[2], "after:") && len(parts[2]) > len("after:"):
+			jl.class = "after"
+			jl.owner = strings.TrimPrefix(parts[2], "after:")
+			if jl.fn == "*" {
+				jl.bad = "after needs an explicit access site (function) with its own happens-after argument, not *"
+			}
 		default:
 			jl.bad = fmt.Sprintf("unknown class %q", parts[2])
 		}
@@ -118,6 +138,22 @@ func applyJustify(file string, lines []*jline, rowsByField map[string][]*row, kn
 		}
 		specific = append(specific, jl)
 	}
+	// an after:<tag> line is an argument relative to a pub:<tag> write of the same field
+	pubs := map[string]bool{}
+	for _, jl := range specific {
+		if jl.class == "pub" {
+			pubs[jl.field+"\x00"+jl.owner] = true
+		}
+	}
+	kept := specific[:0]
+	for _, jl := range specific {
+		if jl.class == "after" && !pubs[jl.field+"\x00"+jl.owner] {
+			bad(jl, "after:%s without a pub:%s line for %s", jl.owner, jl.owner, jl.field)
+			continue
+		}
+		kept = append(kept, jl)
+	}
+	specific = kept
 	set := func(r *row, jl *jline) {
 		r.class, r.owner = jl.class, jl.owner
 		r.why = fmt.Sprintf("justify.txt:%d %s", jl.n, jl.reason)
